@@ -71,6 +71,13 @@ def request_sites(ctx, facts, scope, rule='resource-request-results'):
             lossy = [x for x in fs if x == 'dropped' or x.startswith('swallow')]
             if lossy and not ('matched' in fs or 'propagated' in fs):
                 acc = [r for (fsuf, csuf), r in ACCEPTED.items() if d.endswith(fsuf) and name.endswith(csuf)]
+                if not acc:
+                    # a private helper extracted from an accepted site inherits its justification when every caller of the helper is
+                    # an accepted site for the same callee (e.g. the body of a destructor moved into a free function)
+                    callers = set(facts.callers_of(d))
+                    inh = [[r for (fsuf, csuf), r in ACCEPTED.items() if c.endswith(fsuf) and name.endswith(csuf)] for c in callers]
+                    if callers and all(inh):
+                        acc = ['helper called only from accepted site(s): ' + inh[0][0]]
                 if acc:
                     ctx.ok(rule, inst, nontrivial=True, sample={'site': inst, 'fate': sorted(fs), 'accepted_because': acc[0]})
                 else:
